@@ -49,7 +49,7 @@ def gen(rng, tier):
         case = {'trajs': trajs, 'lag': lag, 'S': S, 'F': F, 'steps': rng.choice([1, 2, 5, 20, 100, 500, 2000]),
                 'seed': rng.randrange(2**31), 'npseed': rng.randrange(2**31), 'alpha': akind, 'mal': mal}
         if rng.random() < 0.15:
-            case['lagtype'] = rng.choice(['int8', 'int8', 'int16', 'int32', 'int64'])      # NumPy integer scalars as lag time
+            case['lagtype'] = rng.choice(['int8', 'int8', 'int16', 'int32', 'int64', 'uint8', 'uint8', 'uint16', 'uint64'])      # NumPy integer scalars as lag time
         yield case
     for case in gen_long(rng, tier):
         yield case
